@@ -30,18 +30,27 @@
       behave identically in both runs and end in related states;
     * `quote_driver_…` — closeBlocks, openBlocks (the whole `goto retry` loop with the contract monitor) and the
       per-line loop over the opened blocks preserve the relation, for every set of parsers whose steps are simulated;
-    * `quote_prefix_run`, `quote_prefix_simulation_partial` — WHOLE RUNS, for every source without tab and CR that
-      ends with a line feed and contains no byte that can start a list item (`-`, `*`, `+`, digits): if the block
-      phase on `D` ends normally, has read all lines and has built a well-shaped store (three decidable facts about
-      the ORIGINAL run, C01/C05-type invariants of goldmark that are not proved yet: `GM.Blocks.quoteHypB` evaluates
-      them; the driver does so for every source of the class in the `blocks` correspondence), then the block phase on `quotePrefix D` ends normally and `QuotePrefixSimulation D` holds: its tree is
+    * `nonblank_line_opens_block` — a line that is not blank always opens a block (every candidate list ends with the
+      code block and the paragraph parser; a declining `Open` does not move the reader): the original run reads
+      every line;
+    * `quote_prefix_run` — WHOLE RUNS, UNCONDITIONALLY for every source without tab and CR that ends with a line feed
+      and contains no byte that can start a list item (`-`, `*`, `+`, digits; `C08Class`): the block phase on `D` ends
+      normally (`GM.Props.Blocks.no_panic`), so does the block phase on `quotePrefix D`, the two final node stores are
+      related, and the original store has a Document without lines that is nobody's child and no List / ListItem node;
+    * `quote_prefix_simulation_class` (`…_partial`, `…_checked`) — for the same class, under ONE remaining decidable
+      assumption about the ORIGINAL run (`SegsNE`: no line / info / closure segment it stores is empty; C05(c)-like;
+      `GM.Blocks.quoteHypB` evaluates it, the driver does so for every source of the class in the `blocks`
+      correspondence): `QuotePrefixSimulation D` holds — the tree of `quotePrefix D` is
       Document[Blockquote[tree of D, segments moved]].
 
-  What is NOT proved (`QuotePrefixSimulationAll` below is the full statement): documents with list items
-  (listParser.Close reads the blank-line flags; the relation does not cover them, and list item Continue needs the
-  invariant "the parent list just answered Continue"); documents whose last line has no `\n`; discharging the three
-  facts about the original run; the inline phase and the renderer (C08 on HTML is SEARCHED by component `quote`).
-  Helper lemmas: GM/Proof/LineRec.lean, GM/Proof/QuoteSim*.lean.
+  What is NOT proved (`QuotePrefixSimulationAll` below is the full statement): `SegsNE` for the original run (an empty
+  segment standing exactly behind the line feed of its line would be moved by the markers of the wrong line; needs
+  "paragraph lines are never blank" through paragraphParser.Close's trimming, with the parser/kind consistency of the
+  open blocks); documents with list items (listParser.Close reads the blank-line flags; the relation does not cover
+  them, and list item Continue needs the invariant "the parent list just answered Continue"); documents whose last
+  line has no `\n`; the inline phase and the renderer (C08 on HTML is SEARCHED by component `quote`).
+  Helper lemmas: GM/Proof/LineRec.lean, GM/Proof/QuoteSim*.lean (unary facts about the original run:
+  QuoteSimInv.lean, QuoteSimInvP.lean, QuoteSimOpens.lean).
 -/
 import GM.Model.LineRec
 import GM.Proof.LineRec
@@ -241,7 +250,7 @@ theorem quote_step_close (src : Bytes) :
 theorem quote_driver_open_blocks {src : Bytes} {al : BP → Bool} (ps : PS src al) (fr : Frames al) (ns : NS src)
     (tr : TrigOK src al) (bA bB : Bool) (q : Nat) {k ls p : Nat} {sA sB : St} (h : DRL src al k ls p sA sB) :
     S2 (fun a b sA' sB' => b = a ∧ ∃ p', DR src al k ls p' sA' sB') (openBlocks q bA sA) (openBlocks (q + 1) bB sB) :=
-  openBlocks_sim ps fr ns tr bA bB q h
+  S2.mono (openBlocks_sim ps fr (ot_all src) ns tr bA bB q h) (fun _ _ _ _ hh => ⟨hh.1, hh.2.1⟩)
 
 /-- **The driver, one line.** The loop of parseBlocks over the opened blocks (parser.go:1081-1123) — A at levels
     `i, i+1, …`, B one level deeper, B's `openedBlocks` being A's with the Blockquote in front — ends both in
@@ -252,7 +261,7 @@ theorem quote_driver_line {src : Bytes} {al : BP → Bool} (ps : PS src al) (fr 
     (hop : sA.pc.opened = ob) (hL : L = (ob.length : Int) - 1) :
     S2 (LLRel src al k ls) (lineLoop 0 ob L rest i stA sA)
       (lineLoop 0 (bqBlock :: ob.map shB) (L + 1) (rest.map shB) (i + 1) stB sB) :=
-  lineLoop_sim ps fr ns tr ob L rest hsub i hi stA stB h hop hL
+  lineLoop_sim ps fr (ot_all src) ns tr ob L rest hsub i hi stA stB h hop hL
 
 /-- **The driver, `closeBlocks`.** `closeBlocks(from, to)` in A and `closeBlocks(from+1, to+1)` in B. -/
 theorem quote_driver_close_blocks {src : Bytes} {al : BP → Bool} (ps : PS src al) (fr : Frames al) {k ls p : Nat}
@@ -260,41 +269,66 @@ theorem quote_driver_close_blocks {src : Bytes} {al : BP → Bool} (ps : PS src 
     S2 (fun _ _ sA' sB' => DR src al k ls p sA' sB') (closeBlocks frm to sA) (closeBlocks (frm + 1) (to + 1) sB) :=
   closeBlocks_sim ps fr h frm to
 
+/-- **A line that is not blank always opens a block** (the fact that makes the original run read every line; it was
+    an assumption — `ReadToEnd` — of the whole-run theorem before). For every tab-free source in which every position
+    inside a line has a rest of line with a byte that is not a space (`NS`: sources ending with `\n`) and every covered
+    parser set: from related states inside a line, with nothing open in the original run and a rest of line that is not blank, `openBlocks` answers
+    `newBlocksOpened`: every candidate list of parser.go:842-850 ends with the code block and the paragraph parser, a
+    declining `Open` leaves the reader where it was, the paragraph parser opens on such a line indented by at most
+    three columns, the code block parser on one indented by more. (The two runs still answer the same and end in
+    related states: `quote_driver_open_blocks`.) -/
+theorem nonblank_line_opens_block {src : Bytes} {al : BP → Bool} (ps : PS src al) (fr : Frames al) (ns : NS src)
+    (tr : TrigOK src al) (bA bB : Bool) (q : Nat) {k ls p : Nat} {sA sB : St} (h : DRL src al k ls p sA sB)
+    (ho : sA.pc.opened = []) (hnb : isBlank ((viewA src ls p).getD []) = false) (a : OpenResult) (sA' : St)
+    (hA : openBlocks q bA sA = .ok (a, sA')) : a = .newBlocksOpened := by
+  obtain ⟨_, _, _, _, _, hh⟩ := openBlocks_sim ps fr (ot_all src) ns tr bA bB q h a sA' hA
+  exact hh ho hnb
+
 /-- **Whole runs.** For every source without tab and CR that ends with a line feed and has no byte that can start a
-    list item (`C08Class`): if the block phase on `D` ends normally in `sA` having read all lines of `D`, then the
-    block phase on `quotePrefix D` ends normally too (no panic, no contract violation, enough fuel), in a state whose
-    node store is `sA`'s with one more node in front, A's Document being B's Blockquote, and every segment moved
-    by the markers in front of its line. -/
-theorem quote_prefix_run {src : Bytes} (hc : C08Class src) {sA : St} (hA : GM.Blocks.run src = .ok sA)
-    (hre : ReadToEnd src sA) :
-    ∃ sB, GM.Blocks.run (quotePrefix src) = .ok sB ∧ StoreRel src sA.nodes sB.nodes :=
-  run_sim hc hA hre
+    list item (`C08Class`): the block phase on `D` ends normally (`GM.Props.Blocks.no_panic`), and so does the block
+    phase on `quotePrefix D` (no panic, no contract violation, enough fuel), in a state whose node store is the
+    original one with one more node in front, the original Document being the Blockquote, and every segment moved by
+    the markers in front of its line; and the original store satisfies `UStore`: the Document has no lines and is
+    nobody's child, and there is no List / ListItem node. NO assumption about the original run is left here. -/
+theorem quote_prefix_run {src : Bytes} (hc : C08Class src) :
+    ∃ sA sB, GM.Blocks.run src = .ok sA ∧ GM.Blocks.run (quotePrefix src) = .ok sB ∧
+      StoreRel src sA.nodes sB.nodes ∧ UStore sA.nodes := by
+  obtain ⟨sA, hA⟩ := GM.Props.Blocks.no_panic src
+  obtain ⟨sB, hB, hn, hu⟩ := run_sim hc hA
+  exact ⟨sA, sB, hA, hB, hn, hu⟩
 
 /-- **`QuotePrefixSimulation` for the class** (`GM.Props.Blocks.QuotePrefixSimulation`, the tree-level statement of
-    C08). For every source of `C08Class` whose ORIGINAL run ends normally, has read all lines and has a well-shaped
-    store (`WellShaped`: the Document has no lines, no List / ListItem node, no empty line / info / closure segment,
-    node 0 is nobody's child) the block tree of the prefixed source is Document[Blockquote[children of the original
-    Document, every segment moved by `shiftSeg`]], all printed fields equal. The three hypotheses are decidable facts
-    about the run on `D` alone (`quoteHypB` evaluates them together with the class); they are consequences of
-    invariants of goldmark's block phase that are stated but not proved in GM.Props.Blocks (`NoPanic`,
-    `LinesInRange`) and hold on every source evaluated. -/
-theorem quote_prefix_simulation_partial {src : Bytes} (hc : C08Class src) {sA : St} (hA : GM.Blocks.run src = .ok sA)
-    (hre : ReadToEnd src sA) (hw : WellShaped sA) : GM.Props.Blocks.QuotePrefixSimulation src :=
-  quoteSim_of_class hc hA hre hw
+    C08). For every source of `C08Class`: if no line / info / closure segment stored by the ORIGINAL run is empty
+    (`SegsNE`, a decidable fact about the run on `D` alone — the one remaining assumption; C05(c)-like, it holds on
+    every source evaluated), the block tree of the prefixed source is Document[Blockquote[children of the original
+    Document, every segment moved by `shiftSeg`]], all printed fields equal. Proved and no longer assumed: the
+    original run ends normally (`no_panic`), reads every line (`nonblank_line_opens_block`), leaves the Document
+    without lines and nobody's child, and builds no List / ListItem node (`quote_prefix_run`). -/
+theorem quote_prefix_simulation_class {src : Bytes} (hc : C08Class src)
+    (hne : ∀ sA, GM.Blocks.run src = .ok sA → SegsNE sA) : GM.Props.Blocks.QuotePrefixSimulation src := by
+  obtain ⟨sA, hA⟩ := GM.Props.Blocks.no_panic src
+  exact quoteSim_of_class hc hA (hne sA hA)
 
-/-- the same, from the executable test `GM.Blocks.quoteHypB` (GM/Spec/QuoteHyp.lean: the class and the three facts
-    about the original run as one Bool; the driver evaluates it — op `blocks quotesimhyp` — on every source of the
-    class that the `blocks` correspondence generates) -/
+/-- the same with the final state named (the form of the earlier `…_partial` theorem; its hypotheses "the run ends
+    normally / has read all lines / Document without lines / no list node / node 0 nobody's child" are gone) -/
+theorem quote_prefix_simulation_partial {src : Bytes} (hc : C08Class src) {sA : St} (hA : GM.Blocks.run src = .ok sA)
+    (hne : SegsNE sA) : GM.Props.Blocks.QuotePrefixSimulation src :=
+  quoteSim_of_class hc hA hne
+
+/-- the same, from the executable test `GM.Blocks.quoteHypB` (GM/Spec/QuoteHyp.lean: the class and the facts about
+    the original run as one Bool — it still evaluates ALL the former assumptions, a superset of `SegsNE`; the driver
+    evaluates it — op `blocks quotesimhyp` — on every source of the class that the `blocks` correspondence generates) -/
 theorem quote_prefix_simulation_checked {src : Bytes} (h : quoteHypB src = true) :
     GM.Props.Blocks.QuotePrefixSimulation src :=
   quoteSim_of_hypB src h
 
 /-- **The full statement of C08 on block trees — NOT PROVED.** `QuotePrefixSimulation D` for every tab- and CR-free,
     non-blank `D` (for other `D` it holds vacuously: `quoteSimPair` answers `none`). Proved: the instance
-    `quote_prefix_simulation_partial`. Missing, in this order of size: (1) the three facts about the original run for
-    every source (no panic; every non-blank line at top level opens a block; no empty segment) — the open C01 / C05(c)
-    obligations of the block phase; (2) a last line without `\n` (the relation has no reader state for "behind a
-    line without line feed": fenced code and list item `Continue` call `Advance(-1)` there); (3) list items: the
+    `quote_prefix_simulation_class`. Missing, in this order of size: (1) `SegsNE` — no stored segment of the original
+    run is empty (paragraph lines are never blank, so paragraphParser.Close's trimming leaves them non-empty; every
+    other stored segment contains the rest of a line up to its line feed) — the last assumption about the original run;
+    (2) a last line without `\n` (fenced code and list item `Continue` call `Advance(-1)` there; `toContinuable` at
+    the end of the source needs the parser/kind consistency of the open blocks); (3) list items: the
     `HasBlankPreviousLines` flags of list items and of children of list items must be related (they are equal,
     all 516k evaluated cases) through the blank-line statistics of parseBlocks, for `listParser.Close`, and
     `listItemParser.Continue` needs "the parent list's Continue just answered Continue" (`ListItemContPre`). -/
@@ -314,6 +348,15 @@ example : GM.Props.Blocks.QuotePrefixSimulation
 -- test: the executable statement on the same document
 example : GM.Blocks.quoteSim (strBytes "a\n===\n\n~~~x\n  \ncode\n~~~\n> q\n> > r\n\n<div>\nh\n</div>\n\n    ind\n___\n# t\n") = "ok" := by
   decide +kernel
+-- the remaining assumption `SegsNE` is satisfiable together with the class (same document), so the class theorem applies
+example : C08Class (strBytes "a\n===\n\n~~~x\n  \ncode\n~~~\n> q\n> > r\n\n<div>\nh\n</div>\n\n    ind\n___\n# t\n") := by
+  decide +kernel
+example : (match GM.Blocks.run (strBytes "a\n===\n\n~~~x\n  \ncode\n~~~\n> q\n> > r\n\n<div>\nh\n</div>\n\n    ind\n___\n# t\n") with
+    | .ok s => decide (SegsNE s) | .error _ => false) = true := by decide +kernel
+-- the unconditional whole-run theorem on it: both runs end normally
+example : ∃ sA sB, GM.Blocks.run (strBytes "a\n\n> q\n") = .ok sA ∧ GM.Blocks.run (quotePrefix (strBytes "a\n\n> q\n")) = .ok sB ∧
+    StoreRel (strBytes "a\n\n> q\n") sA.nodes sB.nodes ∧ UStore sA.nodes :=
+  quote_prefix_run (by decide +kernel)
 -- the class excludes list markers and a missing final line feed
 example : ¬ C08Class (strBytes "- a\n") := by decide +kernel
 example : ¬ C08Class (strBytes "a") := by decide +kernel
